@@ -9,7 +9,14 @@ import (
 
 type Rand struct{ s uint64 }
 
-func New(seed uint64) *Rand { return &Rand{s: seed*0x9E3779B97F4A7C15 + 0x1234567} }
+// New scrambles the seed with the splitmix64 finaliser first: the generator advances its state by a
+// fixed constant per draw, so neighbouring raw seeds would otherwise give the same stream shifted by one.
+func New(seed uint64) *Rand {
+	z := seed + 0x632BE59BD9B4E019
+	z = (z ^ (z >> 30)) * 0xBF58476D1CE4E5B9
+	z = (z ^ (z >> 27)) * 0x94D049BB133111EB
+	return &Rand{s: z ^ (z >> 31)}
+}
 
 // FromEnv seeds from VERIF_SEED (default 1), mixed with a per-observer salt.
 func FromEnv(salt uint64) *Rand {
